@@ -288,6 +288,10 @@ pub enum Repr {
     Int(Prim),
     CInt(Prim),
     Transparent,
+    /// #[repr(C, align(N))]
+    CAlign(u32),
+    /// #[repr(align(N))]
+    Align(u32),
 }
 
 impl Repr {
@@ -298,6 +302,8 @@ impl Repr {
             Repr::Int(p) => format!("#[repr({})]", p.rust()),
             Repr::CInt(p) => format!("#[repr(C, {})]", p.rust()),
             Repr::Transparent => "#[repr(transparent)]".into(),
+            Repr::CAlign(n) => format!("#[repr(C, align({}))]", n),
+            Repr::Align(n) => format!("#[repr(align({}))]", n),
         }
     }
 }
